@@ -138,6 +138,7 @@ func Load(repo string, cfg Config, overlay map[string][]byte) *Ctx {
 	for _, fn := range c.Funcs {
 		c.fnByName[c.FnName(fn)] = fn
 	}
+	c.matchRenamedAnchors()
 	c.CHA = cha.CallGraph(prog)
 	c.CG = vta.CallGraph(all, c.CHA)
 	return c
@@ -173,6 +174,9 @@ func (c *Ctx) FnName(fn *ssa.Function) string {
 	if fn.Parent() != nil {
 		// anonymous: parent name + $index
 		return c.FnName(fn.Parent()) + strings.TrimPrefix(fn.Name(), fn.Parent().Name())
+	}
+	if a, isA := fnAlias[fn]; isA {
+		return a // matched as the renamed form of a recorded function (anchors.go)
 	}
 	pk := ""
 	if fn.Pkg != nil {
@@ -282,6 +286,11 @@ func FieldVar(n *types.Named, field string) *types.Var {
 			return st.Field(i)
 		}
 	}
+	for i := 0; i < st.NumFields(); i++ {
+		if a, isA := fieldAlias[st.Field(i)]; isA && a == field {
+			return st.Field(i) // matched as the renamed form of a recorded field (anchors.go)
+		}
+	}
 	return nil
 }
 
@@ -376,9 +385,9 @@ func fieldKey(owner *types.Named, f *types.Var) string {
 		return ""
 	}
 	if owner == nil {
-		return "?." + f.Name()
+		return "?." + recordedFieldName(f)
 	}
-	return owner.Obj().Name() + "." + f.Name()
+	return owner.Obj().Name() + "." + recordedFieldName(f)
 }
 
 // loadedField: if v is a load (*addr) of a struct field (or a Field extraction), report it.
@@ -410,14 +419,14 @@ func AccessPath(v ssa.Value) string {
 		case *ssa.FieldAddr:
 			_, f, base := fieldOf(x)
 			if f != nil {
-				parts = append(parts, f.Name())
+				parts = append(parts, recordedFieldName(f))
 				v = base
 				continue
 			}
 		case *ssa.Field:
 			_, f, base := fieldOf(x)
 			if f != nil {
-				parts = append(parts, f.Name())
+				parts = append(parts, recordedFieldName(f))
 				v = base
 				continue
 			}
